@@ -359,6 +359,7 @@ func run(c *common.Ctx) *common.Result {
 					choices := append([]int{}, r.Choices...)
 					res.Violate(common.Violation{Class: "interleaved-differs-from-solo", Case: p.Src, Detail: bad + " | schedule=" + fmt.Sprint(choices),
 						Replay: replayData{Prog: p, Mode: "interleaved", Threads: n, Choices: choices}})
+					return false // one counterexample per program
 				}
 				return verdict != sched.Stuck
 			})
